@@ -327,7 +327,7 @@ def run_task(task, acc):
         @st.composite
         def strat(draw):
             spec = draw(st.sampled_from(CLASS_SPECS))
-            return draw(mut.history_strategy(max_nodes=7, max_steps=25, faults="all+evict", invalid=(mut.family_of(spec) == "NM"), class_specs=[spec]))
+            return draw(mut.history_strategy(max_nodes=7, max_steps=25, faults="all+evict", invalid=("look" if mut.family_of(spec) == "NM" else False), class_specs=[spec]))
 
         acc.run_hypothesis(check_case, strat(), task["examples"], task["seed"])
 
